@@ -1,0 +1,21 @@
+//go:build verif
+
+package metrics
+
+// VerifCollectAccessLogMetrics runs one collection of the access-log based
+// histograms (transaction_duration / provider_transaction_duration), which
+// production runs from a ticker every
+// LUNAR_ACCESS_LOG_METRICS_COLLECTION_TIME_INTERVAL_SEC. Verification harness only.
+func (m *MetricManager) VerifCollectAccessLogMetrics() bool {
+	if m.transactionMetricsManager == nil || m.transactionMetricsManager.discoveryParser == nil {
+		return false
+	}
+	m.transactionMetricsManager.collectMetrics()
+	return true
+}
+
+// VerifCollect runs one collection of the legacy lunar_transaction histogram,
+// which production runs from the same kind of ticker. Verification harness only.
+func (m *LegacyMetricManager) VerifCollect() {
+	m.collectMetrics()
+}
